@@ -293,6 +293,7 @@ class Engine:
         self.known_files = {}
         self.foreign = {}  # (f, ti) -> holding
         self.foreign_jobs = {}  # f -> dict(dir, child, alive, scheduler_dies, holdings)
+        self.foreign_watches = {}  # (token file, id(job object)) -> job object watched by a live foreign scheduler
         self.children = []
         self.step_no = 0
         self.waiter = None
@@ -382,6 +383,17 @@ class Engine:
         m.alive = False
         m.exits.append(job.spec["code"])
         self.log.append(("exit", job.idx, job.spec["code"], self.step_no))
+        # the threads of other schedulers that wait for this process wake up (each removes the token
+        # file it watches, without any lock, whenever it gets to run)
+        for (path, oid), watched in list(self.foreign_watches.items()):
+            if watched is job:
+                del self.foreign_watches[(path, oid)]
+                if self.case.get("reclaim_first"):
+                    # ... before our own scheduler has handled the end of the process
+                    _foreign_reclaims_ours(self, path)
+                    self.notes.add("foreign-watcher-acts-before-our-release")
+                else:
+                    self.add_event("foreign", f"reclaim-ours:{path.parent.name}", lambda p=path: _foreign_reclaims_ours(self, p))
 
     # --- model helpers
     def failed_ancestors(self, j, seen=None):
@@ -968,6 +980,8 @@ def _foreign_acquire(eng, f, ti, w, twostep, scheduler_dies):
         used = 0
         for p in d.glob("*.token"):
             used += int(p.read_text().split("\n")[0])
+        if not scheduler_dies:
+            _foreign_watches_ours(eng, ti)
         if tok["total"] - used < w:
             eng.notes.add("foreign-acquire-refused")
             return
@@ -1016,6 +1030,29 @@ def _foreign_acquire(eng, f, ti, w, twostep, scheduler_dies):
             eng.notes.add("foreign-scheduler-died")
 
     eng.add_event("foreign", f"jobend{f}", job_ends)
+
+
+def _foreign_watches_ours(eng, ti):
+    """A live foreign scheduler has just read the directory of token ti: for every token file of a
+    running job of ours it starts a thread that waits for the job's process (TokenFile.watch)"""
+    d = eng.tokdir(ti)
+    for p in d.glob("*.token"):
+        for m in eng.jobs.values():
+            o = m.alive_obj
+            if m.alive and o is not None and p.name == f"{o.identifier}.token":
+                eng.foreign_watches.setdefault((p, id(o)), o)
+                eng.notes.add("foreign-scheduler-watches-our-job")
+
+
+def _foreign_reclaims_ours(eng, path):
+    """TokenFile.watch.run() of a foreign scheduler, after the process it waited for ended"""
+    if path.is_file():
+        owner = [m.idx for m in eng.jobs.values() if m.alive and m.alive_obj is not None and path.name == f"{m.alive_obj.identifier}.token"]
+        path.unlink()
+        eng.notes.add("foreign-watcher-removes-our-token-file")
+        if owner:
+            # the file had been written again, under the same name, for a later run of the job
+            eng.notes.add("foreign-watcher-removes-recreated-token-file")
 
 
 def _foreign_preheld(eng, f, ti, w, racer):
@@ -1074,6 +1111,7 @@ def _foreign_open(eng, ti, twostep):
             _deliver_now(eng, lambda: token.on_modified(FileModifiedEvent(str(info))), "modified:token.info (truncated)")
             eng.notes.add("half-written-token-info")
         info.write_text(str(tok["total"]))
+        _foreign_watches_ours(eng, ti)
     eng.notes.add("foreign-open")
 
 
